@@ -65,6 +65,7 @@ func checkC14(c *Ctx) {
 	c14Collections(c, n/3)
 	c14Ez(c, c.scale(300, 4000))
 	c14SameFlagSet(c, c.scale(300, 6000))
+	c14SharedDecoder(c, c.scale(200, 5000))
 	for i := 0; i < n; i++ {
 		g := &envTypeGen{r: r, used: map[string]bool{}, alias: true, embed: r.Chance(40)}
 		T := g.genStruct(1+r.Intn(3), nil, nil)
